@@ -223,7 +223,7 @@ def impl_main(payload):
         ea = isl._ea
         ogs = type(ea).generational_step
         viol = []
-        ops = [rng.choice(["step", "step", "step", "reset", "best", "hof", "regen", "migrate"]) for _ in range(rng.randint(2, 7))]
+        ops = [rng.choice(["step", "step", "step", "reset", "best", "hof", "regen", "migrate", "inject", "resetsome"]) for _ in range(rng.randint(2, 7))]
         if rng.random() < 0.5:
             ops = ["best"] + ops
         def vc_(v):
@@ -299,6 +299,12 @@ def impl_main(payload):
                     isl.regenerate_population()      # a fresh, unevaluated population whatever the island's age
                     post = [mon.snap(p) for p in isl.population]
                     island_case(2, pre, pre_age, post, gs=[g for (g, _, _) in post])
+                elif op == "inject":
+                    # a seeded individual / an immigrant put in by hand: unevaluated, everybody else keeps their flags.  Not a step
+                    # of the model (its theorems hold from every state satisfying the invariant); what follows is compared from here
+                    isl.population[rng.randrange(len(isl.population))] = isl._generator()
+                elif op == "resetsome":
+                    isl.reset_fitness([p for p in isl.population if rng.random() < 0.5])
                 elif op == "best":
                     isl.get_best_individual()
                     island_case(1, pre, pre_age, [mon.snap(p) for p in isl.population])
